@@ -214,6 +214,12 @@ type BBTail struct {
 
 type Empty struct{}
 
+// SM: an interface{} field followed by a typed map field (reference from one to the other)
+type SM struct {
+	A interface{}
+	B map[string]interface{}
+}
+
 type Nested struct {
 	O  Outer
 	PO *Outer
@@ -231,7 +237,7 @@ func init() {
 		MyInt(0), MyI8(0), MyU16(0), MyStr(""), MyF64(0), MyBool(false), MyBytes(nil), MyInts(nil),
 		Scalars{}, PScalars{}, PU32{}, Named{}, Bigs{}, Times{}, Conts{}, Node{}, Node2{}, Tree{}, Graph{},
 		Tagged{}, Inner{}, Outer{}, Shared{}, One{}, OneS{}, OneP{}, Cx{}, Deep{}, Lst{}, Strs{}, BBTail{},
-		Empty{}, Nested{},
+		Empty{}, Nested{}, SM{},
 	} {
 		reg(v)
 	}
